@@ -99,6 +99,7 @@ var ctlPrograms = []prog{
 	mkProg("ctl-hooks-cancelled-call", "S:1:R,1,2:2:0:0:0 C:2:R,1,3:3 S:3:R,1,4:4:0:0:0 H:3:1001 H:4:1002 H:5:1001 D:1 O:retry=100"),
 	mkProg("ctl-timeout", "S:1:R,1,2:2:0:0:0 T:2:100:R,1,3:3:0 C:2:R,1,3:3 D:0"),
 	mkProg("ctl-two-callbacks", "S:1:R,1,2:2:0:0:0 C:2:B,P,1,X,1:3 C:2:R,1,3:3 S:3:R,1,4:4:0:0:0 H:3:0 H:4:0 D:0"),
+	mkProg("ctl-delete-fails-twice", "S:1:R,1,2:2:0:0:0 C:2:R,1,3:3 S:3:R,1,4:4:0:0:0 H:4:0 D:4 O:retry=100"),
 	mkProg("ctl-stepctl", "S:1:B,P,1,X,1:2:0:0:0 S:2:R,1,3:3:0:0:0 H:3:0 H:4:0 D:1 O:retry=100,stamp=1"),
 }
 
@@ -107,6 +108,8 @@ var pauseProgramsFmt = []string{
 	"S:1:B,E,1,11,E,0,12:2:0:0:0 S:2:R,1,3:3:0:0:0 O:dpause=%d,retry=1000,stamp=1",
 	"S:1:R,1,2:2:0:0:0 T:2:10:E,1,13:3:%d O:retry=-1",
 	"S:1:F,3,11,R,1,2:2:0:%d:0 S:2:R,1,3:3:0:0:0 O:retry=500,stamp=1",
+	// two processes failing with the SAME error text on one run: counted per process
+	"S:1:F,2,11,R,1,2:2:0:%[1]d:0 S:2:F,2,11,R,1,3:3:0:%[1]d:0 S:3:F,1,11,R,1,4:4:0:%[1]d:0 O:retry=-1",
 }
 
 var badReturnPrograms = []prog{
@@ -224,8 +227,11 @@ func genEngine(p *params, emit func(string, bool)) {
 	prop := os.Getenv("VERIF_PROP")
 	r := p.rng
 	switch prop {
-	case "C03", "C08", "C15", "C14":
+	case "C03", "C15", "C14":
 		genControl(p, prop, emit)
+	case "C08":
+		genControl(p, prop, emit)
+		genStaleReads(p, emit)
 	case "C20":
 		genSchedule(p, emit)
 	case "C04":
@@ -237,9 +243,14 @@ func genEngine(p *params, emit func(string, bool)) {
 		genTimeouts(p, emit)
 	case "C13":
 		genPausing(p, emit)
-	case "C02", "C16":
+	case "C02":
 		genReturns(p, emit)
 		genFaults(p, emit, 0.25)
+		genStaleReads(p, emit)
+	case "C16":
+		genReturns(p, emit)
+		genFaults(p, emit, 0.25)
+		genControl(p, prop, emit)
 	default: // C01 C05 C06 C07 C11 and the unprojected self-test
 		genFaults(p, emit, 1.0)
 	}
@@ -331,6 +342,14 @@ func genControl(p *params, prop string, emit func(string, bool)) {
 		base = append(base, pr.rounds(4)...)
 		emit(scenario(pr, base), false)
 		ctls := []string{"ct:1:0", "ct:1:1", "ct:1:2", "ct:1:3", "ui:1:0", "ui:1:1", "ui:1:2", "ui:1:3", "cb:1:2", "tr:1:0:6"}
+		// one RunStateController used for two or three consecutive changes (ctr = re-use the controller of the previous ct)
+		for pos := 1; pos <= len(base); pos += 2 {
+			for _, seq := range [][]string{{"ct:1:0", "ctr:1:1"}, {"ct:1:0", "ctr:1:2"}, {"ct:1:0", "ctr:1:1", "ctr:1:0"}, {"ct:1:2", "ctr:1:3"}, {"ct:1:0", "ctr:1:2", "ctr:1:3"}, {"ct:1:3", "ctr:1:3"}} {
+				ops := append(append(append([]string{}, base[:pos]...), seq...), base[pos:]...)
+				ops = append(ops, pr.rounds(3)...)
+				emit(scenario(pr, ops), true)
+			}
+		}
 		tail := append([]string{adv(100)}, pr.rounds(3)...)
 		tail = append(tail, "cb:1:2", "ct:1:1", adv(200))
 		tail = append(tail, pr.rounds(3)...)
@@ -408,10 +427,16 @@ func genControl(p *params, prop string, emit func(string, bool)) {
 // redelivery: cursor rewinds to every position, duplicated events, for every status consumer
 func genRedelivery(p *params, emit func(string, bool)) {
 	r := p.rng
-	progs := []prog{programs[0], programs[1], programs[3], mkProg("pausing", "S:1:R,1,2:2:0:0:0 S:2:P,0:3:0:0:0 T:2:50:R,1,3:3:0")}
+	progs := []prog{programs[0], programs[1], programs[3], mkProg("pausing", "S:1:R,1,2:2:0:0:0 S:2:P,0:3:0:0:0 T:2:50:R,1,3:3:0"),
+		// the record comes back to a status at a higher version: a polling step (self-loop), a pause and resume
+		mkProg("redeliver-selfloop", "S:1:R,1,2:2:0:0:0 S:2:R,1,2:2,3:0:0:0 C:2:R,1,4:4"),
+		mkProg("redeliver-pause-resume", "S:1:R,1,2:2:0:0:0 S:2:F,1,12,R,1,3:3:0:1:0 S:3:R,1,4:4:0:0:0 O:retry=-1")}
 	for _, pr := range progs {
 		base := []string{"tr:1:0:4", "tr:2:0:7"}
 		base = append(base, pr.rounds(5)...)
+		if pr.name == "redeliver-pause-resume" {
+			base = append(base, "ct:1:1", "ct:2:1")
+		}
 		base = append(base, adv(100))
 		base = append(base, pr.rounds(5)...)
 		emit(scenario(pr, base), false)
@@ -459,11 +484,16 @@ func genStaleReads(p *params, emit func(string, bool)) {
 		mkProg("stale-pause", "S:1:R,1,2:2:0:0:0 S:2:F,1,12,R,1,3:3:0:1:0 S:3:R,1,4:4:0:0:0 O:retry=-1"),
 		mkProg("stale-steppause", "S:1:R,1,2:2:0:0:0 S:2:F,1,12,R,1,3:3:0:0:0 T:2:50:R,1,3:3:0 O:dpause=1,retry=30,stamp=1"),
 		mkProg("stale-hooks", "S:1:R,1,2:2:0:0:0 S:2:R,1,3:3:0:0:0 H:5:0 H:4:0 D:1"),
+		// a polling step (declared self-loop) with a callback off the same status
+		mkProg("stale-selfloop", "S:1:R,1,2:2:0:0:0 S:2:R,1,2:2,3:0:0:0 C:2:R,1,4:4 S:3:R,1,4:4:0:0:0"),
 	}
 	for _, pr := range progs {
 		base := []string{"tr:1:0:4", "tr:2:0:7"}
 		base = append(base, pr.rounds(4)...)
 		base = append(base, "ct:1:1", "ct:2:1", "ct:2:2", "ct:2:3", adv(60))
+		if pr.name == "stale-selfloop" {
+			base = append(base, "cb:1:2")
+		}
 		base = append(base, pr.rounds(4)...)
 		rec := pr.rounds(4)
 		emit(scenario(pr, base), false)
